@@ -742,7 +742,14 @@ pub fn xround(n: f64) -> f64 {
     if n < 0.0 && n >= -0.5 {
         return -0.0;
     }
-    (n + 0.5).floor()
+    // the closest integer, of two the one closer to positive infinity.  Not floor(n + 0.5): that addition rounds
+    // (0.49999999999999994 + 0.5 == 1.0, and odd integers above 2^52 move).  f64::round is exact and rounds ties away
+    // from zero, which is the wanted direction for positive ties only.
+    if n.fract() == -0.5 {
+        n.ceil()
+    } else {
+        n.round()
+    }
 }
 
 fn is_xml_space(c: char) -> bool {
